@@ -28,6 +28,7 @@ BOUND = 2e-4                    # the property's bound on the cut-off effect (ra
 SLACK = 1e-10                   # floating-point slack on angles (acos near w = 1 has conditioning 1/|vec| <= 1e4)
 SLIVER_KEY = "round-trip:log-cutoff-sliver-above-2e-4"
 SLIVER_HI = 2.00000001e-4
+WIDE_KEY = "mean:symmetric-centre-negative-central-weight"
 
 
 # ------------------------------------------------------------------ quaternion arithmetic (oracle side)
@@ -247,7 +248,7 @@ def unscented_weights(r, k):
 def gen_mean(g, n_each):
     r = g.r
     cases = []
-    styles = ["random", "clustered", "all-equal", "symmetric", "symmetric-unscented", "single"]
+    styles = ["random", "clustered", "all-equal", "symmetric", "symmetric-unscented", "single", "unscented-wide"]
     for k in range(n_each):
         st = styles[k % len(styles)]
         extra = {}
@@ -279,7 +280,15 @@ def gen_mean(g, n_each):
             c = gen_quat(r, r.choice(["uniform", "negative-w", "half-turn"]))
             rs = [gen_rotvec(r, r.choice(["quarter", "quarter", "near-cut"])) for _ in range(kk)]
             qs = [list(c)] + [list(qmul(true_exp(x), c)) for x in rs] + [list(qmul(true_exp([-y for y in x]), c)) for x in rs]
-            if st == "symmetric":
+            if st == "unscented-wide":
+                # scaled unscented set (alpha 0.1 / 0.3: central weight -99 / -10.1) with a wide spread in 2..3 directions
+                kk = r.randint(2, 3)
+                rs = [[r.uniform(0.8, 1.55) * x for x in d] for d in ([1.0, 0.0, 0.0], [0.0, 1.0, 0.0], [0.0, 0.0, 1.0])[:kk]]
+                qs = [list(c)] + [list(qmul(true_exp(x), c)) for x in rs] + [list(qmul(true_exp([-y for y in x]), c)) for x in rs]
+                alpha = r.choice([0.1, 0.3])
+                sc = alpha * alpha * kk
+                w = [1.0 - kk / sc] + [1.0 / (2.0 * sc)] * (2 * kk)
+            elif st == "symmetric":
                 wk = [r.uniform(0.05, 1.0) for _ in range(kk)]
                 w0 = r.choice([0.0, r.uniform(0.05, 1.0)])
                 s = w0 + 2 * math.fsum(wk)
@@ -564,18 +573,26 @@ def check_mean(cases, H, Dm, P, stats):
                 e = vec_dist_up_to_sign(v, q0)
                 if e > 1e-12 * scale / sw + 1e-12:
                     P.append(("prop", "mean:all-equal", "all inputs are +-%r (total weight %.3g) but mean_quaternion returned %r" % (q0, sw, v), idx))
-        elif c["style"] in ("symmetric", "symmetric-unscented"):
+        elif c["style"] in ("symmetric", "symmetric-unscented", "unscented-wide"):
+            # gap of `mean_symmetric_centre(_partial)`: sum w_i cos|r_i| > 0 makes the centre the dominant eigenvector
             g = math.fsum(wi * math.cos(vnorm(r)) for wi, r in zip(w, c["rs"]))
-            ok = all(wi >= 0 or vnorm(r) == 0.0 for wi, r in zip(w, c["rs"]))
-            if c["style"] == "symmetric" or (ok and g > 0.05 * scale):
-                e = vec_dist_up_to_sign(v, c["centre"])
-                t2 = 1e-12 * scale / max(g, 1e-300) + 1e-12
+            centre_only_neg = all(wi >= 0 or vnorm(r) == 0.0 for wi, r in zip(w, c["rs"]))
+            e = vec_dist_up_to_sign(v, c["centre"])
+            if centre_only_neg and g > 0.05 * scale:
+                t2 = 1e-12 * scale / g + 1e-12
                 stats["mean_symmetric_checked"] = stats.get("mean_symmetric_checked", 0) + 1
                 stats["max_mean_symmetric_over_tol"] = max(stats.get("max_mean_symmetric_over_tol", 0.0), e / t2)
                 if e > t2:
                     P.append(("prop", "mean:symmetric-centre", "inputs placed symmetrically around %r (weights %r, gap %.3g) but mean_quaternion returned %r" % (c["centre"], w, g, v), idx))
+            elif g > 0:
+                stats["mean_symmetric_near_degenerate_skipped"] = stats.get("mean_symmetric_near_degenerate_skipped", 0) + 1
             else:
+                # outside the theorems (negative central weight, wide spread): the clause is evaluated all the same
                 stats["mean_symmetric_outside_theorem"] = stats.get("mean_symmetric_outside_theorem", 0) + 1
+                if e > 1e-9:
+                    stats["mean_symmetric_outside_theorem_not_centre"] = stats.get("mean_symmetric_outside_theorem_not_centre", 0) + 1
+                    P.append(("prop", WIDE_KEY, "inputs placed symmetrically around %r with weights %r (negative central weight, sum w_i cos|r_i| = %.3g <= 0) but mean_quaternion returned %r, %.3g rad away from the centre"
+                              % (c["centre"], w, g, v, rotdist(v, c["centre"])), idx))
         # the model with `eig := the implementation's result`: outer-product matrix and contract quantities
         dl = Dm.get(idx, "missing")
         t = dl.split()
@@ -600,7 +617,11 @@ def witnesses():
           mk_qexp([[2.000000001e-4, 0.0, 0.0]], style="witness"),
           mk_qexp([[CUT, 0.0, 0.0], [0.0, CUT * UP, 0.0], [0.0, 0.0, CUT * DN], [2e-4, 0.0, 0.0]], style="witness"),
           mk_qlog([[math.sqrt(1 - 1e-8), CUT, 0.0, 0.0], [-math.sqrt(1 - 1e-8), 0.0, CUT * UP, 0.0], [0.0, 1.0, 0.0, 0.0], [-0.0, 0.0, 0.0, 1.0]], style="witness"),
-          mk_qmean([0.5, 0.5], [one, [0.6, 0.8, 0.0, 0.0]], style="random")]
+          mk_qexp([], style="empty"), mk_qlog([], style="empty"), mk_qsum([one], [], style="empty"), mk_qdiff([], [one], style="empty"),
+          mk_qmean([0.5, 0.5], [one, [0.6, 0.8, 0.0, 0.0]], style="random"),
+          # mean_symmetric_centre_negative_weight_counterexample
+          mk_qmean([-1.0, 1.0, 1.0], [one, list(true_exp([1.5, 0.0, 0.0])), list(true_exp([-1.5, 0.0, 0.0]))], style="symmetric-unscented",
+                   centre=one, rs=[[0.0, 0.0, 0.0], [1.5, 0.0, 0.0], [-1.5, 0.0, 0.0]])]
     return ws
 
 
@@ -648,7 +669,12 @@ def run(ctx):
     stats = {"branches": {}, "round_trips": {}, "mean_styles": {}}
     if ctx.replay:
         body = json.loads(open(ctx.replay).read())
-        cases = [case_from_line(ln, "replay") for ln in body.get("replay", {}).get("input_lines", [])]
+        rp = body.get("replay", {})
+        cases = []
+        for ln, m in zip(rp.get("input_lines", []), rp.get("metas") or [None] * len(rp.get("input_lines", []))):
+            c = case_from_line(ln, "replay")
+            c.update(m or {})
+            cases.append(c)
     else:
         cases = witnesses() + load_corpus()
         for part in (gen_phase1(ctx.gen("convert"), ctx.n(72, 2400)), gen_mean(ctx.gen("mean"), ctx.n(120, 3000))):
@@ -679,14 +705,22 @@ def run(ctx):
     Dm = {i: d for (i, _), d in zip(mean_idx, Dm_lines)}
     check_mean(cases, H, Dm, P, stats)
 
+    KEEP = ("style", "sibling", "centre", "rs", "q0")
+
+    def meta_of(c, **extra):
+        m = {k: c[k] for k in KEEP if k in c}
+        m.update(extra)
+        return m
+
     def inputs_of(ref):
+        """(input lines, observed output, metas) — a replay re-runs the lines; the second phase is regenerated from them"""
         if isinstance(ref, tuple):
             d = p2[ref[1]]
-            return [cases[d["src"]]["line"], d["line"]], H2[ref[1]]
+            return [cases[d["src"]]["line"]], H2[ref[1]], [meta_of(cases[d["src"]])]
         c = cases[ref]
         if "of" in c:
-            return [cases[c["of"]]["line"], c["line"]], H[ref]
-        return [c["line"]], H[ref]
+            return [cases[c["of"]]["line"], c["line"]], H[ref], [meta_of(cases[c["of"]]), meta_of(c, of=0)]
+        return [c["line"]], H[ref], [meta_of(c)]
 
     prop_bad = [p for p in P if p[0] == "prop"]
     corr_bad = [p for p in P if p[0] == "corr"]
@@ -695,15 +729,19 @@ def run(ctx):
         seen.setdefault(key, []).append((what, ref))
     for key, lst in seen.items():
         what, ref = min(lst, key=lambda t: len(" ".join(inputs_of(t[1])[0])))
-        ins, obs = inputs_of(ref)
+        ins, obs, metas = inputs_of(ref)
+        if key == WIDE_KEY:
+            what = ("with a negative central weight and a wide spread the centre is not the eigenvector of the largest eigenvalue of sum w_i q_i q_i^T "
+                    "(witness: centre 1, sigma points exp(+-(1.5,0,0)), weights (-1,1,1): result (0,+-1,0,0), a half turn away); " + what)
         if key == SLIVER_KEY:
             what = ("for 2e-4 < |r| <= 2 asin(1e-4) = 2.0000000033e-4 the exponential is regular but the logarithm's own cut-off "
                     "(|vec| = sin(|r|/2) <= 1e-4) returns 0: the round trip is off by |r|, up to 3.4e-13 rad above the stated bound 2e-4; " + what)
         ctx.violation(key, "%s (%d failing columns in this run)" % (what, len(lst)),
-                      {"harness": "h_quat", "input_lines": ins, "observed": [obs[:1500]], "note": "two input lines = first call and the call made on its result / on its sibling"})
+                      {"harness": "h_quat", "input_lines": ins, "metas": metas, "observed": [obs[:1500]],
+                       "note": "round trips: the line is the first call, the check feeds its result to the inverse function; two lines = a case and its sibling"})
     if corr_bad and not prop_bad:
         _, key, what, ref = corr_bad[0]
-        ins, obs = inputs_of(ref)
+        ins, obs, metas = inputs_of(ref)
         ctx.violation("correspondence:" + key, "model and implementation disagree beyond what the property allows (%d), no property predicate failed: %s" % (len(corr_bad), what),
                       {"harness": "h_quat", "correspondence": "BFL.Quat model vs bfl::utils quaternion templates", "input_lines": ins, "observed": [obs[:1500]]}, no_input=True)
     for i, log in list(logs.items())[:3]:
